@@ -218,7 +218,9 @@ CONFIG = {
         "level": "exploration",
         "rule": "C10: exhaustive self-deadlock sweep over every public method of the 20 collection types; generated concurrent programs checked for linearizability (porcupine) and structural integrity; the same kind of programs under the race detector with classified reports.",
         "groups": [G("c10", run="TestMethodSelfDeadlock|TestLinearizability|TestDrainStress|TestBlockingGetStress|TestCrossPutAll|TestAddStress|TestGrowthStress|TestBoundStress", shards={"quick": 4, "thorough": 16}, timeout={"quick": 600, "thorough": 3000}),
-                   G("c10", race=True, race_classified=True, run="TestKnownFindings|TestRaceDetector|TestRacePairs|TestGrowthStress", shards={"quick": 4, "thorough": 16}, timeout={"quick": 600, "thorough": 3000})],
+                   G("c10", race=True, race_classified=True, run="TestKnownFindings|TestRaceDetector|TestRacePairs|TestGrowthStress", shards={"quick": 4, "thorough": 16}, timeout={"quick": 600, "thorough": 3000}),
+                   # the library's cached-clock mode is chosen by an environment variable read at start-up
+                   G("c10", run="TestMethodSelfDeadlock", env={"WHATAP_DATETIME_MODE": "sync"}, shards={"quick": 1, "thorough": 2}, timeout={"quick": 600, "thorough": 1200})],
         "assumptions": [
             "the sequential specification used by the linearizability check is the structure's own single-goroutine behaviour (replayed on a fresh instance); that behaviour is checked against independent models by C09/C11/C12/C13",
             "the Go scheduler is not controlled: concurrent sub-checks sample schedules (spin barrier, 16 cores); the race detector reports unsynchronised access pairs from happens-before, not from unlucky timing; absence of a report is not absence of a bad interleaving",
